@@ -147,6 +147,11 @@ def entries():
         ("arity-builtin-len-two", "print(len(xs, xs))", False), ("arity-builtin-itoa-none", "print(itoa())", False),
         ("arity-builtin-copy-one", "print(copy(li))", False), ("arity-builtin-write-one", "write(\"p\")", False),
         ("arity-builtin-write-four", "write(\"p\", \"d\", true, true)", False), ("arity-builtin-input-two", "qq := input(\"a\", \"b\")\nprint(qq)", False),
+        # a program call has no signature, but an argument must still be a value
+        ("program-arg-string", "@echo(xs)", True), ("program-arg-call", "@echo(fstr(\"a\"))", True),
+        ("program-arg-novalue", "@echo(v())", False), ("program-arg-novalue-second", "@echo(\"a\", v())", False),
+        ("program-arg-novalue-piped", "@echo(\"a\") | @cat(v())", False),
+        ("program-arg-novalue-captured", "po, pe, pc := @echo(v())\nprint(po, pe, pc)", False),
     ]:
         for cname, ctx in CONTEXTS:
             if stmt.startswith("func") and cname != "top":
